@@ -750,7 +750,14 @@ func genBzst(r *Rand, tier string, emit func(string)) {
 			for k := 1 + r.Intn(4); k > 0; k-- {
 				ss = append(ss, strconv.Itoa(r.Intn(2)))
 			}
-			for k := 21 + r.Intn(16); k > 0; k-- {
+			nrun := 21 + r.Intn(16)
+			switch r.Intn(3) { // also past 64 and 128 run symbols: a wider counter wraps there
+			case 1:
+				nrun = 58 + r.Intn(14)
+			case 2:
+				nrun = 120 + r.Intn(20)
+			}
+			for k := nrun; k > 0; k-- {
 				ss = append(ss, "0")
 			}
 			if len(dict) >= 2 && r.Bool() {
